@@ -18,7 +18,9 @@ WS = [' ', '  ', '\t', '\n', '\r\n', ' \n ', '\n\n', '\t ']
 C11_FEAT = {'window': True, 'tzcast': True, 'interval': True, 'arrayidx': True, 'alljoins': True, 'nulls': True, 'typeargs': True}
 # systematic respellings: (whitespace run between tokens, whitespace inside a multi-word keyword, casing)
 MODES = {'canon': (' ', ' ', 'upper'), 'lower': (' ', ' ', 'lower'), 'double': ('  ', '  ', 'cap'), 'newline': ('\n', '\n', 'upper'),
-         'tab': ('\t', '\t', 'lower'), 'crlf': ('\r\n', ' \r\n ', 'cap'), 'inner2': (' ', '  ', 'upper'), 'innernl': (' ', '\n', 'lower')}
+         'tab': ('\t', '\t', 'lower'), 'crlf': ('\r\n', ' \r\n ', 'cap'), 'inner2': (' ', '  ', 'upper'), 'innernl': (' ', '\n', 'lower'),
+         # second pass: the lone carriage return is a line break too (Newline rule `(\r\n|\r|\n)`), alone and in runs
+         'cr': ('\r', '\r', 'upper'), 'innercr': (' ', '\r', 'lower'), 'crcr': ('\r\r', '\r \r', 'cap'), 'innercrlf': (' ', '\r\n', 'upper')}
 
 
 def respell_mode(text, mode):
@@ -188,7 +190,7 @@ def rule_phrases(limit=40):
 
 def phrase_pairs(ctx):
     """each multi-word phrase, canonical spelling vs each inner-whitespace/casing variant, between two names and at the places such keywords stand"""
-    variants = [('  ', 'upper'), ('\n', 'upper'), ('\t', 'lower'), (' \r\n ', 'cap'), (' ', 'lower'), ('\n\n', 'mixed')]
+    variants = [('  ', 'upper'), ('\n', 'upper'), ('\t', 'lower'), (' \r\n ', 'cap'), (' ', 'lower'), ('\n\n', 'mixed'), ('\r', 'upper'), ('\r\n', 'lower'), ('\n\r', 'cap')]
     def spell(ph, inner, case):
         ws = ph.split(' ')
         def one(w, k):
@@ -204,6 +206,35 @@ def phrase_pairs(ctx):
             base = ctxt.replace('%s', ph.upper())
             for inner, case in variants:
                 yield base, ctxt.replace('%s', spell(ph, inner, case))
+
+
+# --- second pass ---------------------------------------------------------------------------------------------------------------------------
+SP_WS = [' ', '  ', '\t', '\n', '\r', '\r\n', ' \n ', '\n\n']
+
+
+def qualifier_pairs():
+    """every dictionary word as a qualifier / as a qualified part with whitespace around the period (`user . name`): the look-ahead of the
+    name-before-dot rule crosses ANY whitespace, so the kind of whitespace must not decide whether the word is a Name or a keyword"""
+    import props.C18 as C18
+    ctxts = ('select %s%s.%sc1 from t1', 'select x1 from t1 where %s%s.%sc1 = 1 and e1 = 2', 'update t1 set x1 = %s%s.%sc1 where e1 = 2')
+    for i, w in enumerate(w for w in C18.all_dictionary_words() if w.isidentifier()):
+        # the word keeps its spelling: where it is a Name its case is significant; only the whitespace around the period changes
+        ctxt = ctxts[i % 3]
+        w = w if i % 2 else w.lower()
+        base = ctxt % (w, ' ', ' ')
+        for a in ('\n', '\t', '\r\n', '\r'):
+            yield base, ctxt % (w, a, ' ')
+            yield base, ctxt % (w, a, a)
+
+
+def go_pairs():
+    """the batch separator on its own line, on the line of the statement, with and without a count, in both cases"""
+    sts = ['select 1', 'select 2', 'update t1 set x1 = 1']
+    for go in ('GO', 'go', 'Go', 'GO 2', 'go  3'):
+        base = (' ' + go + ' ').join(sts)
+        for a in SP_WS[1:]:
+            for b in SP_WS:
+                yield base, (a + go + b).join(sts)
 
 
 def run(ctx):
@@ -223,6 +254,9 @@ def run(ctx):
                 compare(ctx, canon, respell_mode(a, m))
         nsys += len(MODES)
     for a, b in phrase_pairs(ctx):
+        compare(ctx, a, b)
+        nsys += 1
+    for a, b in list(qualifier_pairs()) + list(go_pairs()):
         compare(ctx, a, b)
         nsys += 1
     ctx.count('systematic respellings + rule phrases', nsys)
